@@ -234,6 +234,25 @@ func checkC14(c *core.Check) {
 				}
 			}
 		}
+		{
+			// one operation whose body is a oneOf told apart by a discriminator: documents and their discriminator
+			// mutants (missing, every other JSON type, one-character values) as request bodies
+			t := []aspec.Seg{{K: "lit", S: "pets"}}
+			op := simpleOp("POST", t)
+			u := aspec.Schema{K: "oneOf", Of: []aspec.Schema{{K: "ref", To: "VarDog"}, {K: "ref", To: "VarCat"}, {K: "ref", To: "VarBird"}}, DiscProp: "kind"}
+			a.Schemas = append(a.Schemas, aspec.NamedSchema{Name: "PetUnion", Schema: u})
+			op.Body = aspec.Body{K: "json", Schema: &aspec.Schema{K: "ref", To: "PetUnion"}, Req: true}
+			a.Paths = append(a.Paths, aspec.PathItem{Template: t, Ops: []aspec.Op{op}})
+			valid := driver.ReqCase{Method: "POST", Path: base.NF() + "/pets", Headers: map[string][]string{"Content-Type": {"application/json"}}, Script: driver.Script{Parse: true, ReadBody: true}}
+			for _, dc := range docsFor(tlaSchema(a, u, 0), rng, nBodyDocs) {
+				bs, _ := json.Marshal(dc.doc)
+				rc := valid
+				rc.ID, rc.Body, rc.HasBody = newID(), string(bs), true
+				rc.Reads = plans[len(g.Cases)%len(plans)]
+				g.Cases = append(g.Cases, rc)
+				info[rc.ID] = rc
+			}
+		}
 		jobs = append(jobs, a.Job(id))
 		groups = append(groups, g)
 		groups = append(groups, driver.Group{Pkg: id, Kind: "fuzz", API: g.API, Fuzz: driver.FuzzConfig{Seed: rng.Int63(), N: fuzzN / ((len(good) + perPkg - 1) / perPkg), Base: base.NF(), Tag: id, Seen: names}})
